@@ -327,6 +327,53 @@ func TestC06(t *testing.T) {
 				}
 			}
 		}
+		if ti.WireL <= 0 && mine() {
+			// variable-length text: every body of 0..5 octets over NUL, 'A', the three octets of the UTF-8 byte order
+			// mark, a two-octet sequence's lead and continuation octet and 0xFF, between leading byte and terminator;
+			// and every sequence of up to 4 text units (marks, blanks, invisible and ordinary characters)
+			al := []byte{0x00, 0x41, 0xef, 0xbb, 0xbf, 0xc3, 0x80, 0xff}
+			var rec2 func(p []byte, n int)
+			rec2 = func(p []byte, n int) {
+				if len(p) == n {
+					try(append(append([]byte{0}, p...), 0))
+					return
+				}
+				for _, x := range al {
+					rec2(append(p, x), n)
+				}
+			}
+			for n := 0; n <= 5; n++ {
+				rec2(nil, n)
+			}
+			units := []string{"\ufeff", "\ufffe", "A", "\u00e9", "\u200b", "\u00a0", " ", "\t", "\r\n", "\u2028", "0"}
+			var rec3 func(t string, n int)
+			rec3 = func(t string, n int) {
+				try(append(append([]byte{0}, t...), 0))
+				if n == 0 {
+					return
+				}
+				for _, u := range units {
+					rec3(t+u, n-1)
+				}
+			}
+			rec3("", 4)
+		}
+		if ti.Kind == reflect.String && ti.WireL == 15 && mine() {
+			// fixed-width text: every pair of edge characters at the head and at the tail of the 14 characters, the rest
+			// 'a' or NUL padding
+			edge := []byte{0x00, 0x20, 0x41, 0x7f, 0x80, 0xa0, 0xe9, 0xff}
+			for _, h1 := range edge {
+				for _, h2 := range edge {
+					for _, t1 := range edge {
+						for _, fill := range []byte{0x00, 'a'} {
+							p := append([]byte{0}, bytes.Repeat([]byte{fill}, 14)...)
+							p[1], p[2], p[14] = h1, h2, t1
+							try(p)
+						}
+					}
+				}
+			}
+		}
 		rec.Eval(evals)
 		rec.NonTrivialEnum(acc)
 		rec.ClassN(fmt.Sprintf("enum-main%d-accepted", ti.Main), acc)
